@@ -104,6 +104,13 @@ def run(ctx) -> None:
     ctx.rule("R03.8", "any_iter accepts every combination of (awaitable of) sync / async iterable of (awaitable) items (R19.2, shared)")
     c19.r19_2(Relabel(ctx, "R03.8"))
     r03_10(ctx)
+    r03_13(ctx)
+    r03_12(ctx)
+    from . import c06
+    from .common import Relabel as _Rel
+    ctx.rule("R03.11", "what an operation raises or returns does not depend on what the source's aclose() returns: no __aexit__ of "
+                       "the library hands a value back that it did not derive from the exception (R06.3, shared)")
+    c06._aexit_falsy(_Rel(ctx, "R03.11"))
     ctx.floor("awaitified_calls", 8)
     ctx.floor("awaitify_sites", 10)
     ctx.floor("iterable_params", 25)
@@ -327,6 +334,68 @@ def awaitify_argument(ctx, rid: str, u: Unit, n: Node) -> None:
                              "passed through", node=n)
                     return
     ctx.ok(rid, u, f"`{norm(call)}` wraps a user callable (or an asynchronous library default)", line=getattr(call, "lineno", None))
+
+
+def r03_13(ctx, rid: str = "R03.13") -> None:
+    """What awaitify hands out stands for the user's callable: it is called with whatever the callable would be called
+    with - positional and keyword arguments alike (``ExitStack.callback(cb, *args, **kwargs)`` binds keyword arguments)."""
+    ctx.rule(rid, "the wrappers awaitify puts around a user's callable take *args and **kwargs and pass both on unchanged")
+    units = []
+    if ctx.pkg.has_unit("_core.Awaitify.__call__"):
+        units.append(ctx.unit("_core.Awaitify.__call__"))
+    if ctx.pkg.has_unit("_core.force_async"):
+        fa = ctx.unit("_core.force_async")
+        units += [x for x in fa.module.units.values() if x.parent is fa]
+    if not units:
+        ctx.note(f"{rid}: the awaitify wrappers are not found under their names; not checked")
+        return
+    for u in units:
+        a = u.node.args
+        ok_sig = a.vararg is not None and a.kwarg is not None
+        ctx.check(ok_sig, rid, u, u.node.name, "the wrapper accepts positional and keyword arguments (*args, **kwargs)")
+        if not ok_sig:
+            continue
+        cfg = cfg_of(u)
+        for n in cfg.nodes:
+            if n.kind != "call" or n.tag:
+                continue
+            fv = ctx.vals.expr(u, n.ast.func, n)
+            if not any(x[0] in ("user", "result", "item") for x in fv):
+                continue
+            stars = [norm(x.value) for x in n.ast.args if isinstance(x, ast.Starred)]
+            kws = [norm(k.value) for k in n.ast.keywords if k.arg is None]
+            ok = stars == [a.vararg.arg] and kws == [a.kwarg.arg] and len(n.ast.args) == 1 and len(n.ast.keywords) == 1
+            ctx.check(ok, rid, u, n.ast, "the wrapped callable is called with (*args, **kwargs) exactly as the wrapper was", node=n)
+
+
+def r03_12(ctx) -> None:
+    """A callable argument is a ``def``, an ``async def``, a partial or any object with ``__call__`` - and such an object
+    may well be falsy (``__len__`` / ``__bool__``: a memoising callable that is empty so far).  "Was a callable given?" is
+    decided by identity with None, never by its truth value."""
+    from asl.values import roles_of_annotation
+    ctx.rule("R03.12", "the truth value of a user's callable is never taken (`key or default`, `if key:`, `not key`): whether one "
+                       "was given is decided by `is None`")
+    sites = 0
+    for u in real_units(ctx):
+        cfg = cfg_of(u)
+        for n in cfg.nodes:
+            if n.kind != "op" or n.tag or n.info.get("op") not in ("truth", "not"):
+                continue
+            for operand in n.info.get("operands", []):
+                if not isinstance(operand, ast.Name):
+                    continue
+                for a in ctx.vals.expr(u, operand, n):
+                    if a[0] != "user" or ":" not in str(a[1]):
+                        continue
+                    owner, _, pname = a[1].partition(":")
+                    ou = ctx.pkg.unit(owner) if ctx.pkg.has_unit(owner) else None
+                    ann = next((p.annotation for p in ou.params() if p.arg == pname), None) if ou is not None else None
+                    if ann is not None and "CALLABLE" in roles_of_annotation(ann) and not ({"ITERABLE", "ITERATOR"} & roles_of_annotation(ann)):
+                        sites += 1
+                        ctx.fail("R03.12", u, operand, f"the truth value of the callable `{pname}` decides a branch: a callable object that "
+                                 "is falsy (it may define __len__ or __bool__) is treated as if none was given, a `def` never is", node=n)
+    if not sites:
+        ctx.ok("R03.12", "package", "no truth test of a callable argument")
 
 
 def r03_10(ctx) -> None:
